@@ -16,12 +16,14 @@ def judge_mc(ck, r):
     p = tlc.run("LlcpLife.tla", "MC_LlcpLife_prefix.cfg", "C09", workers=4, timeout=300)
     if "NoStuckLive" not in p.violated:
         raise tlc.TLCError("vacuous: the non-atomic check model does not exhibit the lost wake-up")
-    # the strict property (no thread waits after termination, dead sockets included) is violated by
-    # design of the current code: TLC's counterexample documents the known finding at spec level
+    # the model of the code before the fix "sockets can not be bound to a terminated controller" (DeadBind = TRUE) must
+    # violate NoStuck: documents that defect at specification level and keeps the model honest
     q = tlc.run("LlcpLife.tla", "MC_LlcpLife_strict.cfg", "C09", workers=4, timeout=300)
-    ck.cover(strict_model_violated=q.violated, prefix_model_violated=p.violated)
-    hit, _ = tlc.witnesses("LlcpLife.tla", "MC_LlcpLife.cfg", "C09", ["W_WaitAtTerm", "W_Notified", "W_Dead", "W_Data"])
-    if len(hit) != 4:
+    if "NoStuck" not in q.violated:
+        raise tlc.TLCError("vacuous: the DeadBind model does not exhibit the hang on a dead controller")
+    ck.cover(deadbind_model_violated=q.violated, prefix_model_violated=p.violated)
+    hit, _ = tlc.witnesses("LlcpLife.tla", "MC_LlcpLife.cfg", "C09", ["W_WaitAtTerm", "W_Notified", "W_Data"])
+    if len(hit) != 3:
         raise tlc.TLCError("vacuous: witnesses reached only %s" % sorted(hit))
     ck.cover(witnesses_reached=sorted(hit))
 
